@@ -28,8 +28,21 @@ def plan(tier):
 
 
 def _sorted_disjoint(events):
+    """sorted by start (ties in any order), durations >= 0, no two events share more than an instant"""
     ivs = [iv(e) for e in events]
-    return all(s <= e for s, e in ivs) and all(ivs[i][1] <= ivs[i + 1][0] for i in range(len(ivs) - 1))
+    if not all(s <= e for s, e in ivs) or not all(ivs[i][0] <= ivs[i + 1][0] for i in range(len(ivs) - 1)):
+        return False
+    top = None      # the latest end so far; every later event must start at or after it, unless one of the two is a mere instant on an edge
+    for i, (s, e) in enumerate(ivs):
+        for (s0, e0) in ivs[max(0, i - 3):i]:
+            if min(e, e0) - max(s, s0) > 0:
+                return False
+        if top is not None and s < top and e > s:
+            # a positive-length event starting before an earlier end: overlap with something further back
+            if any(min(e, e0) - max(s, s0) > 0 for (s0, e0) in ivs[:i]):
+                return False
+        top = e if top is None else max(top, e)
+    return True
 
 
 def pre_unol(events1, events2):
@@ -155,6 +168,11 @@ def gen_case(rng, ctx):
         b = [(rng.randrange(0, 3), span - rng.randrange(0, 3))]
     elif r < 0.27 and a:
         b = list(a)
+    for lst in (a, b):
+        # a zero-length event and the event that starts at the same instant may stand in either order (both are "sorted")
+        for i in range(len(lst) - 1):
+            if lst[i][0] == lst[i][1] == lst[i + 1][0] and lst[i + 1][1] > lst[i + 1][0] and rng.random() < 0.4:
+                lst[i], lst[i + 1] = lst[i + 1], lst[i]
     sa, sb = _specs(rng, a, base, unit, 100, zone), _specs(rng, b, base, unit, 200, zone)
     if rng.random() < 0.35:
         # list-two events that end between milliseconds (durations keep microseconds although timestamps do not):
